@@ -93,3 +93,68 @@ def init_sched(H, S, N):
     for i in range(N):
         H.c(f"{H.lv(S, 'tx_dependency.dependent_state.e.locked', [i])} = 0; {H.lv(S, 'tx_dependency.dependent_state.e.data.onboard', [i])} = 1; "
             f"{H.lv(S, 'tx_dependency.dependent_state.e.data.dependency.d', [i])} = 0; {H.lv(S, 'tx_dependency.affect_txs.e.locked', [i])} = 0;")
+
+
+# ---- full-scheduler abstraction: real MV memory / read-write sets over abstract location ids --------------------
+def t_loc(tr, ty, name, dims, storage, g=None):
+    """LocationAndType: an abstract location id (the scheduler never looks inside a location)"""
+    s = StructN(ty, name, dims, storage, "LocId")
+    s.fields.append(ScalarN(None, name + "_id", dims, storage, "unsigned char"))
+    s.names.append("id")
+    return s
+
+
+def loc_key(tr, loc):
+    return tr.lv(Loc(loc.node.fields[0], loc.idxs))
+
+
+def mv_overrides(extra=None):
+    ov = revm_types.base_overrides()
+    for k in ("ParallelState", "Address", "DelegatedSafetyConfig", "Beneficiary", "MemoryValue"):
+        ov[k] = unit
+    del ov["GrevmConfig"]
+    for k in ("SpeculativeResult", "ExecutionResult", "BeneficiaryReadVersion"):
+        ov[k] = t_spec_result
+    ov["LocationAndType"] = t_loc
+    if extra:
+        ov.update(extra)
+    return ov
+
+
+def mv_cfg(N, L=2, stubs=None, extra_types=None, **kw):
+    c = cfg(N, stubs=stubs, **kw)
+    c["type_overrides"] = mv_overrides(extra_types)
+    c["key_fns"] = {"LocationAndType": loc_key}
+    c["key_cap"] = L
+    c["btree_cap"] = N
+    c["set_iter_cap"] = max(N, L)
+    return c
+
+
+def bene_true_stubs():
+    def ret_true(tr, c):
+        c.ret(VScalar("1", "_Bool"))
+    return {"Beneficiary::record_estimate": ret_true, "Beneficiary::record_execution": ret_true, "Beneficiary::invalidate": ret_true}
+
+
+def init_ctx(H, S, N):
+    H.c(f"{H.lv(S, 'scheduler_ctx.validation_resets')} = 0; {H.lv(S, 'scheduler_ctx.logical_clock')} = 1; {H.lv(S, 'scheduler_ctx.execution_frontier.frontier')} = 0;")
+    for i in range(N):
+        H.c(f"{H.lv(S, 'scheduler_ctx.lower_timestamps.e', [i])} = 0; {H.lv(S, 'scheduler_ctx.unconfirmed_timestamps.e', [i])} = 0; "
+            f"{H.lv(S, 'scheduler_ctx.execution_frontier.executed.e', [i])} = 0;")
+
+
+def init_tx_tables(H, S, N, L=2):
+    """tx_states Initial/0/None, tx_results None, MV memory empty"""
+    st = H.nav(S, "tx_states.e.data")
+    trn = H.nav(S, "tx_results.e.data")
+    for i in range(N):
+        H.c(f"{H.lv(S, 'tx_states.e.locked', [i])} = 0; {H.lv(st, 'status.d', [i])} = 0; {H.lv(st, 'incarnation', [i])} = 0; {H.lv(st, 'dependency.d', [i])} = 0;")
+        H.c(f"{H.lv(S, 'tx_results.e.locked', [i])} = 0; {H.lv(trn, 'd', [i])} = 0;")
+        for j in range(N):
+            H.c(f"{H.lv(S, 'tx_dependency.affect_txs.e.data.present.e', [i, j])} = 0;")
+    mv = H.nav(S, "mv_memory.slots.e")
+    for l in range(L):
+        H.c(f"{H.lv(mv, 'locked', [l])} = 0; {H.lv(mv, 'data.present', [l])} = 0;")
+        for i in range(N):
+            H.c(f"{H.lv(mv, 'data.val.present.e', [l, i])} = 0;")
